@@ -47,12 +47,6 @@ func NewClientServerStream(ctx context.Context) *ClientServerStream {
 }
 
 func (s *ClientServerStream) Close(err error) {
-	if err == io.EOF {
-		// io.EOF is how the client half reports a clean end of the stream (closeErrLocked, RecvMsg):
-		// a handler that returns io.EOF, typically the EOF of its own Recv handed on, has failed,
-		// and like a gRPC server does for any error that is not a status, the call ends with Unknown "EOF"
-		err = status.Error(codes.Unknown, err.Error())
-	}
 	// like gRPC, deliver headers staged with SetHeader along with the final status
 	// when the handler returns without having sent any header or message
 	_ = (&serverStream{s}).SendHeader(nil)
@@ -70,6 +64,12 @@ func (s *ClientServerStream) closeErrLocked() error {
 	defer s.headerM.Unlock()
 	if s.closeErr == nil {
 		return io.EOF
+	}
+	if s.closeErr == io.EOF {
+		// io.EOF stands for a clean end of the stream here: a handler that returned io.EOF, typically the EOF
+		// of its own Recv handed on, has failed, and like a gRPC server does for any error that is not a status,
+		// the call ends with Unknown "EOF"
+		return status.Error(codes.Unknown, s.closeErr.Error())
 	}
 	return s.closeErr
 }
